@@ -1776,6 +1776,12 @@ def setitem_array(out_name, array, indices, value):
     #
     # Note that array_common_shape and value_common_shape may be
     # different if there are any size 1 dimensions being broadcast.
+    # `reverse` holds positions of dimensions of the array: from here on it is
+    # used for the dimensions of the indexing result (integer indices dropped)
+    reverse = [
+        implied_shape_positions.index(i) for i in reverse if i in implied_shape_positions
+    ]
+
     offset = len(implied_shape) - value_ndim
     if offset >= 0:
         # The array has the same number or more dimensions than the
@@ -1802,7 +1808,7 @@ def setitem_array(out_name, array, indices, value):
     non_broadcast_dimensions = []
 
     for i, (a, b, j) in enumerate(
-        zip(array_common_shape, value_common_shape, implied_shape_positions)
+        zip(array_common_shape, value_common_shape, implied_shape_positions[offset:])
     ):
         index = indices[j]
         if is_dask_collection(index) and index.dtype == bool:
@@ -1934,6 +1940,8 @@ def setitem_array(out_name, array, indices, value):
                     block_index_size = None
                     n_preceding = None
                     dim_1d_int_index = dim
+                    # its position among the non-integer indices
+                    pos_1d_int_index = len(block_indices_shape)
                     loc0_loc1 = loc0, loc1
 
                 if not is_dask_collection(index) and not block_index.size:
@@ -1976,12 +1984,12 @@ def setitem_array(out_name, array, indices, value):
         value_indices = base_value_indices[:]
         for i in non_broadcast_dimensions:
             j = i + offset
-            if j == dim_1d_int_index:
+            if dim_1d_int_index is not None and j == pos_1d_int_index:
                 # Index is a 1-d integer array
                 #
                 # Define index in the current namespace for use in
                 # `value_indices_from_1d_int_index`
-                index = indices[j]
+                index = indices[dim_1d_int_index]
 
                 value_indices[i] = value_indices_from_1d_int_index(
                     dim_1d_int_index, value_shape[i + value_offset], *loc0_loc1
